@@ -37,7 +37,7 @@ NOFAULT = {"parse": "ok", "n": 1, "tostan": "ok", "summary": "ok", "toc": "none"
 # a real epytext docstring whose ParsedEpytextDocstring.to_node() raises (an indented field before a top-level one leaves a
 # nested field list in the tree): realises the model's node = "once" on the real, unwrapped code
 ONCE_DOC = "Summary of %s here.\n  @note: x\n@note: y"
-CALL_TIMEOUT = 20          # seconds per entry-point call ("terminates")
+CALL_TIMEOUT = 8           # seconds per entry-point call ("terminates"); a healthy call needs milliseconds
 # the model describes the tree as it is: both known deviations present. VERIF_C08_MODEL=fixed describes the tree with
 # proposed_fixes/C08-*.diff applied (used to try the fixes; flip the defaults when they are committed)
 _FIXED = os.environ.get("VERIF_C08_MODEL") != "prefix"      # the two defects are repaired in /repo (dac0793, 1bcc148)
@@ -443,7 +443,11 @@ def run_scenario(sc: Dict[str, Any]) -> Dict[str, Any]:
                 with contextlib.redirect_stdout(sink), contextlib.redirect_stderr(sink), _Alarm(CALL_TIMEOUT):
                     val = fn_of[op](ob)
                     html = "" if val is None else flatten(val)
-            except Exception as e:           # the property: this never happens
+            except TimeoutError as e:        # the property: this never happens
+                r = "timeout"
+                exc = f"{type(e).__name__}: {e}"[:200]
+                val = None
+            except Exception as e:           # ... nor this
                 r = "escaped"
                 exc = f"{type(e).__name__}: {e}"[:200]
                 val = None
@@ -468,6 +472,8 @@ def run_scenario(sc: Dict[str, Any]) -> Dict[str, Any]:
             events.append({"o": o, "op": op, "r": r, "st": project(), "full": full, "exc": exc})
             if xstate() != x0:
                 frame_ok = False
+            if r == "timeout":
+                break                        # one hang is the verdict; the remaining calls would only wait again
         # the bystander still renders as in a scenario without any fault
         with contextlib.redirect_stdout(sink), contextlib.redirect_stderr(sink):
             xhtml = flatten(epydoc2stan.format_docstring(obs["X"])) + flatten(epydoc2stan.format_summary(obs["X"]))
@@ -517,8 +523,8 @@ def judge(tr: Dict[str, Any]) -> List[str]:
     for e in tr["ev"]:
         f = F[src(e["o"])]
         st = e["st"]
-        if e["r"] == "escaped":
-            bad.append("AlwaysResult")
+        if e["r"] in ("escaped", "timeout"):
+            bad.append("AlwaysResult" if e["r"] == "escaped" else "Terminates")
             prev_st = st
             continue
         if e["op"] == "docstring":
@@ -690,8 +696,23 @@ def gen_docstrings(seed: int, n: int) -> List[Tuple[str, str]]:
         return text
     s_mut = st.tuples(st.sampled_from(reals) if reals else st.just("Doc."),
                       st.lists(st.tuples(st.integers(0, 5000), frag, st.integers(0, 6)), min_size=1, max_size=5)).map(mutate)
+    # documents divided in sections whose headings repeat, from one word to well over a hundred characters
+    words = ["Notes", "Usage", "Thread safety", "and reentrancy guarantees", "of the public interface", "when the transport is closed by the peer",
+             "1", "2", "Caf\u00e9", "x" * 30]
+    s_head = st.lists(st.sampled_from(words), min_size=1, max_size=6).map(lambda ws: " ".join(ws))
+    under = st.sampled_from(["=", "-", "~"])
+
+    def sections(args: Tuple[List[str], List[int], str, str]) -> str:
+        pool, picks, u1, tail = args
+        parts = ["Summary of the thing."]
+        for j, pk in enumerate(picks):
+            h = pool[pk % len(pool)]
+            parts.append("%s\n%s\nText of part %d%s" % (h, u1 * len(h), j, tail))
+        return "\n\n".join(parts) + "\n"
+    s_sect = st.tuples(st.lists(s_head, min_size=1, max_size=2), st.lists(st.integers(0, 3), min_size=2, max_size=4), under,
+                       st.sampled_from([".", " L{x}.", " *y*."])).map(sections)
     out: List[Tuple[str, str]] = []
-    fams = [("fragments", s_frag), ("fragments", s_frag_sp), ("mutated", s_mut), ("unicode", s_uni), ("control", s_ctl)]
+    fams = [("fragments", s_frag), ("fragments", s_frag_sp), ("mutated", s_mut), ("unicode", s_uni), ("control", s_ctl), ("sections", s_sect)]
     strat = st.one_of(*[s.map(lambda t, f=f: (f, t)) for f, s in fams])
 
     @hseed(seed)
@@ -702,6 +723,38 @@ def gen_docstrings(seed: int, n: int) -> List[Tuple[str, str]]:
         out.append(x)
     collect()
     return out[:n]
+
+
+# ------------------------------------------------------------------------------- Slug.tla: section anchors
+SLUG_WORD = {"a": "Alpha beta gamma delta epsilon zeta eta", "b": "Notes", "1": "1", "2": "2", "3": "3", "4": "4"}
+
+
+def slug_doc(doc: List[List[str]]) -> str:
+    """The epytext docstring for an enumerated sequence of section headings (token sequences)."""
+    parts = ["Summary of the thing."]
+    for j, h in enumerate(doc):
+        text = " ".join(SLUG_WORD[t] for t in h)
+        parts.append("%s\n%s\nText of part %d." % (text, "=" * len(text), j))
+    return "\n\n".join(parts) + "\n"
+
+
+def _slug_job(rec: Dict[str, Any]) -> Dict[str, Any]:
+    from docutils import nodes
+    from pydoctor.epydoc.markup import epytext
+    text = slug_doc(rec["doc"])
+    errs: List[Any] = []
+    pd = epytext.parse_docstring(text, errs)
+    if errs:
+        return {"gen_error": [e.descr() for e in errs], "text": text}
+    try:
+        with _Alarm(CALL_TIMEOUT):
+            document = pd.to_node()
+    except TimeoutError:
+        return {"r": "timeout", "ids": [], "text": text}
+    except Exception as e:
+        return {"r": "escaped", "ids": [], "text": text, "exc": f"{type(e).__name__}: {e}"[:200]}
+    ids = [sec["ids"][0] if sec["ids"] else "" for sec in document.findall(nodes.section)]
+    return {"r": "ok", "ids": ids, "text": text}
 
 
 def _fuzz_job(job: Dict[str, Any]) -> Dict[str, Any]:
@@ -719,6 +772,7 @@ CONSTANTS Source = "enum"
   Ns = {ns}
 {MODEL_CONSTANTS}{"CONSTRAINT EmitTerminal" if emit else ""}
 INVARIANT AlwaysResultOrKF
+INVARIANT Terminates
 INVARIANT FallbackCompleteOrKF
 INVARIANT ReportedWhenFailed
 INVARIANT ReportedWhenRenderFails
@@ -737,6 +791,7 @@ CONSTANTS Source = "file"
 """ + MODEL_CONSTANTS + """CONSTRAINT Accept
 POSTCONDITION Post
 INVARIANT AlwaysResultOrKF
+INVARIANT Terminates
 INVARIANT FallbackCompleteOrKF
 INVARIANT ReportedWhenFailed
 INVARIANT ReportedWhenRenderFails
@@ -854,6 +909,43 @@ def run(ctx: Ctx) -> int:
         if ctx.traces % 4000 == 1:
             ctx.sample({"faults": rec["F"], "inherit": rec["inherit"], "kindA": rec["kindA"], "fmt": fmt, "results": got})
     ctx.extra["spec_vs_code_mismatches"] = mism
+
+    # ================================================================= Slug.tla : the anchor de-duplication loop terminates
+    rs = ctx.tlc("Slug", "SPECIFICATION Spec\nCONSTANTS MaxSections = %d\n Cap = 0\n Bound = 8\nCONSTRAINT EmitTerminal\n"
+                 "INVARIANT Variant\nINVARIANT IdsDistinct\nINVARIANT IdsFaithful\nPROPERTY Terminates\n" % (3 if ctx.quick else 4),
+                 workers="auto", check=True, timeout=900)
+    ctx.extra["slug_design_level_violated"] = list(rs.violated)
+    srecs = list({json.dumps(x["doc"]): x for x in rs.printed}.values())
+    if not srecs:
+        raise MachineryError("Slug: TLC emitted no document")
+    with ProcessPoolExecutor(max_workers=nproc) as ex:
+        sres = list(ex.map(_slug_job, srecs, chunksize=16))
+    slug_mism = 0
+    for rec, got in zip(srecs, sres):
+        if "gen_error" in got:
+            raise MachineryError(f"Slug: generated epytext does not parse: {got}")
+        ctx.traces += 1
+        want = ["-".join(SLUG_WORD[t] for t in sid).lower().replace(" ", "-") for sid in rec["ids"]]
+        bad_s = []
+        if got["r"] == "timeout":
+            bad_s.append("Terminates")
+        elif got["r"] == "escaped":
+            bad_s.append("AlwaysResult")
+        elif len(got["ids"]) != len(rec["doc"]) or len(set(got["ids"])) != len(got["ids"]) or not all(got["ids"]):
+            bad_s.append("IdsDistinct")
+        if bad_s:
+            ctx.violation({"invariant": bad_s[0], "failed": bad_s, "origin": "slug", "headings": rec["doc"], "input": got["text"],
+                           "observed": {"result": got["r"], "ids": got["ids"], "exc": got.get("exc", "")}, "expected": {"ids": want},
+                           "key": "slug:%s:%s" % (bad_s, [len(h) for h in rec["doc"]])})
+        elif got["ids"] != want:
+            slug_mism += 1
+            ctx.drift_note({"slug": rec["doc"], "model": want, "real": got["ids"]})
+    ctx.extra["slug_documents"] = len(srecs)
+    ctx.extra["slug_documents_with_loop_iterations"] = sum(1 for x in srecs if x["iters"] > 0)
+    ctx.extra["slug_model_vs_code_mismatches"] = slug_mism
+    if srecs:
+        mx = max(srecs, key=lambda x: x["iters"])
+        ctx.sample({"slug_headings": mx["doc"], "model_ids": mx["ids"], "loop_iterations": mx["iters"]})
 
     # ================================================================= code -> spec : fuzzed docstrings, observed
     ndocs = 700 if ctx.quick else 12000
@@ -989,6 +1081,16 @@ def run(ctx: Ctx) -> int:
 
 def replay(ctx: Ctx, path: str) -> int:
     w = json.load(open(path))
+    if w.get("origin") == "slug":
+        got = _slug_job({"doc": w["headings"]})
+        bad_s = (["Terminates"] if got.get("r") == "timeout" else ["AlwaysResult"] if got.get("r") == "escaped"
+                 else ["IdsDistinct"] if len(set(got.get("ids", []))) != len(w["headings"]) else [])
+        print("replay:", got.get("r"), got.get("ids"))
+        print("replay:", "still violated: " + ",".join(bad_s) if bad_s else "holds now")
+        if bad_s:
+            print(f"VIOLATION property=C08 replay={path}")
+        ctx.cleanup()
+        return 1 if bad_s else 0
     sc = w["scenario"]
     tr = run_scenario(sc)
     bad: List[str] = []
